@@ -125,6 +125,7 @@ class World:
         self.all_logs = None      # set to [] to accumulate
         self.log_level = log_level
         self.sent_log = None      # set to [] to record every emission (src ep, Datagram)
+        self.recv_log = None      # set to [] to record every delivery (Datagram)
         self.confs = copy.deepcopy(confs)
         self.addrs = addrs
         for name in confs:
@@ -229,8 +230,16 @@ class World:
             if ep is None or not ep.alive or ep.crashed:
                 self.step_logs, self.step_emitted, self.step_internal_errors = [], [], []
                 return
+            if self.recv_log is not None:
+                self.recv_log.append(d)
             ep.inbox.append((d.data, d.src))
             self.loop_once(ep, ('udp', d.dst))
+        elif kind == 'redeliver':   # ('redeliver', index into sent_log): an old authentic datagram is in flight again
+            old = self.sent_log[ev[1]]
+            d = Datagram(self.next_id, old.src, old.dst, old.data, old.desc, old.sender, copy_of=old.id)
+            self.next_id += 1
+            self.net.append(d)
+            self.step_logs, self.step_emitted, self.step_internal_errors = [], [], []
         elif kind == 'drop':
             self.net.remove(self.find(ev[1]))
             self.step_logs, self.step_emitted, self.step_internal_errors = [], [], []
